@@ -81,6 +81,7 @@ fn main() {
     let rest = &args[3..];
     let out = match engine {
         "inflight" => run_engine(engines::inflight::InFlightEngine::new(), mode, rest),
+        "window" => run_engine(engines::window::WindowEngine::new(), mode, rest),
         _ => {
             eprintln!("unknown engine {engine}");
             std::process::exit(2)
